@@ -104,6 +104,11 @@ fn mark_dropped(what: &str, s: u32) -> bool {
     })
 }
 
+/// an error observed by harness code that was handed an object by the library (e.g. the eviction callback)
+pub fn report(msg: String) {
+    record(msg)
+}
+
 pub fn take_errors() -> Vec<String> {
     reg(|r| std::mem::take(&mut r.errors))
 }
